@@ -29,7 +29,7 @@ sys.path.insert(0, os.path.join(os.path.dirname(__file__), "..", "lib"))
 sys.path.insert(0, os.path.dirname(__file__))
 from vlib import GO_SUM_MOD, REPO, MachineryError, main, tree_hash, write_files  # noqa: E402
 from c07 import (LAB, MOD, node_paths, par_map, rec_pkg_config, rec_project_events, rec_root_config,  # noqa: E402
-                 corrupt_case, final_coverage_zero, run_bin, tick, tlc_job, validate_with_selftest)
+                 corrupt_case, final_coverage_zero, guarded, run_bin, tick, tlc_job, validate_with_selftest)
 
 PROBE = (Path(__file__).resolve().parent.parent / "probes" / "select" / "order.templ").read_text()
 SCHEMA_A = {"$schema": "http://json-schema.org/draft-07/schema#", "type": "object"}
@@ -473,7 +473,8 @@ def run(ctx):
         c, prof = w["c"], w["profile"]
         pname = prof["name"] if prof else "probe-template"
         g = c["W"]["g"]
-        base_sig = {"mode": g["mode"], "layout": g["layout"], "ents": g["ents"], "profile": pname}
+        base_sig = {"mode": g["mode"], "layout": g["layout"], "ents": g["ents"], "profile": pname,
+                    "dir": prof["dir"] if prof else "out/{{.SrcPackagePath}}"}
         det = {"W": c["W"], "paths": node_paths(c), "profile": pname, "config": json.loads((w["base"] / ".mockery.yml").read_text()),
                "contract_outcome": {"exit": c["outcome"]["exit"], "n_files": len(c["outcome"]["files"])}}
         runs = w["runs"]
@@ -611,4 +612,4 @@ def run(ctx):
 
 
 if __name__ == "__main__":
-    main("C06", run)
+    main("C06", guarded(run))
